@@ -1024,6 +1024,8 @@ def _rep(a, b):
 
 
 WITNESSES = [
+    ("group columns sorted together with the sample column", "batchie.retrospective",
+     _rep("        grouping_tuples = np.hstack([sample_id_col_vector, treatment_group_ids_sorted])\n", "        grouping_tuples = np.sort(np.hstack([sample_id_col_vector, treatment_group_ids]), axis=1)\n"), ["R2"]),
     ("small samples skipped again", "batchie.retrospective",
      _rep("            n_plates = math.ceil(len(sample_indices) / float(self.max_plate_size))\n            plates = np.array_split(rng.permutation(sample_indices), n_plates)\n            for plate in plates:\n                plate_indices.append(plate)",
           "            if len(sample_indices) > self.max_plate_size:\n                n_plates = math.ceil(len(sample_indices) / float(self.max_plate_size))\n                plates = np.array_split(rng.permutation(sample_indices), n_plates)\n                for plate in plates:\n                    plate_indices.append(plate)"), ["R1"]),
